@@ -5,6 +5,7 @@ package props
 // a DSA certificate that must sign, genuine signatures and attacker mutations of them.
 
 import (
+	"bytes"
 	"crypto/dsa"
 	"crypto/sha1"
 	"crypto/sha256"
@@ -13,6 +14,7 @@ import (
 	"fmt"
 	"math/big"
 	"net/url"
+	"runtime"
 	"strings"
 	"sync"
 	"testing"
@@ -340,5 +342,108 @@ func TestC05Concurrent(t *testing.T) {
 		if genuine != 8*rounds {
 			fmt.Printf("NOTE C05 concurrent: %d of %d genuine requests accepted\n", genuine, 8*rounds)
 		}
+	})
+}
+
+// C05SchedCase: requests of one service provider that must sign arrive together - genuine ones, signed by the provider, and
+// forged ones that nobody signed, padded to the byte length of a genuine message - and overlap at storage-call granularity
+// under a generated schedule. Whatever is accepted must be a message the provider signed.
+type C05SchedCase struct {
+	Kinds    []string `json:"kinds"` // genuine | forged | forged-short
+	Schedule []int    `json:"schedule"`
+	Slow     int      `json:"slow"`
+	SlowAt   string   `json:"slow_at,omitempty"`
+	Binding  string   `json:"binding"` // post | redirect
+}
+
+func genC05SchedCase(t *rapid.T) C05SchedCase {
+	c := C05SchedCase{Slow: -1, Binding: rapid.SampledFrom([]string{"post", "post", "redirect"}).Draw(t, "binding")}
+	n := rapid.IntRange(2, 4).Draw(t, "n")
+	for i := 0; i < n; i++ {
+		c.Kinds = append(c.Kinds, rapid.SampledFrom([]string{"genuine", "forged", "forged", "forged-short"}).Draw(t, "kind"))
+	}
+	c.Kinds[0], c.Kinds[1] = "genuine", "forged"
+	if rapid.IntRange(0, 2).Draw(t, "slowstorage") != 0 {
+		c.Slow = rapid.IntRange(0, n-1).Draw(t, "slow")
+		c.SlowAt = "storage:" + rapid.SampledFrom([]string{"GetEntityByID", "GetEntityByID", "GetResponseSigningKey", "CreateAuthRequest"}).Draw(t, "slowat")
+	}
+	c.Schedule = rapid.SliceOfN(rapid.IntRange(0, 7), 0, 40).Draw(t, "schedule")
+	return c
+}
+
+func c05SchedRun(c C05SchedCase) ([]*ev.Violation, []string) {
+	spec := stdSpec()
+	spec.SPs[0].AuthnRequestsSigned = "true"
+	w := mustBuild(spec)
+	key := spec.SPs[0].KeyNames[0]
+	reqs := make([]obs.HTTPReq, len(c.Kinds))
+	genuineLen := 0
+	build := func(i int, kind string) obs.HTTPReq {
+		id := fmt.Sprintf("_%s-%02d", map[bool]string{true: "genuine", false: "forged-"}[kind == "genuine"], i)
+		a := spsim.NewAuthnReq(id, spec.SPs[0].EntityID)
+		tree := a.Tree(plainStyle)
+		if c.Binding == "redirect" {
+			var rs *spsim.Signing
+			if kind == "genuine" {
+				rs = &spsim.Signing{Alg: world.AlgRSASHA256, KeyName: key}
+			}
+			hr, _, _ := spsim.Encode(spec.IdP.Route("sso"), xt.Write(tree, plainStyle.W), spsim.Transport{Binding: "redirect", Plus: true, Encoding: A, RelayState: "rs"}, rs)
+			return hr
+		}
+		if kind == "genuine" {
+			if err := spsim.SignTree(tree, spsim.Signing{Alg: world.AlgRSASHA256, KeyName: key, KeyInfo: true, CertLayout: "plain", DSPrefix: "ds"}); err != nil {
+				panic(err)
+			}
+		}
+		doc := xt.Write(tree, plainStyle.W)
+		if kind == "genuine" {
+			genuineLen = len(doc)
+		} else if kind == "forged" && genuineLen > len(doc) {
+			doc = append(doc, bytes.Repeat([]byte(" "), genuineLen-len(doc))...)
+		}
+		hr, _, _ := spsim.Encode(spec.IdP.Route("sso"), doc, spsim.Transport{Binding: "post", Plus: true, Encoding: A, RelayState: "rs"}, nil)
+		return hr
+	}
+	for i, k := range c.Kinds {
+		if k == "genuine" {
+			reqs[i] = build(i, k)
+		}
+	}
+	for i, k := range c.Kinds {
+		if k != "genuine" {
+			reqs[i] = build(i, k)
+		}
+	}
+	v, trace := schedTasks(w, len(c.Kinds), c.Schedule, c.Slow, c.SlowAt, func(i int, opt func() obs.Opt) {
+		obs.DoOpt(w.Handler, reqs[i], opt())
+	})
+	if v != nil {
+		v.Key = "C05/" + strings.TrimPrefix(v.Key, "C15/")
+		return []*ev.Violation{v}, trace
+	}
+	var vs []*ev.Violation
+	okCalls, _ := createCalls(w)
+	for _, call := range okCalls {
+		if call.Req == nil || !strings.HasPrefix(call.Req.Id, "_genuine-") {
+			id := "(nil)"
+			if call.Req != nil {
+				id = call.Req.Id
+			}
+			vs = append(vs, ev.V("C05/forged-accepted-under-overlap", "request %q, which nobody signed, was accepted for a service provider that must sign while genuine requests of that provider were being served (schedule %s)", id, short(strings.Join(trace, " "), 200)))
+		}
+	}
+	return vs, trace
+}
+
+func TestC05Sched(t *testing.T) {
+	col := ev.For("C05", "exploration", c05Rule)
+	old := runtime.GOMAXPROCS(4)
+	defer runtime.GOMAXPROCS(old)
+	searchRapid(t, col, genC05SchedCase, func(c C05SchedCase) []*ev.Violation {
+		vs, trace := c05SchedRun(c)
+		col.Case(len(trace) > len(c.Kinds)+2, ev.Fingerprint("sched", c.Kinds, c.Binding, c.SlowAt, c.Slow), []string{"scheduled-requests", "scheduled/" + c.Binding}, func() any {
+			return map[string]any{"case": c, "trace": strings.Join(trace, " ")}
+		})
+		return vs
 	})
 }
